@@ -48,6 +48,8 @@ var tlsSettings = []tlsSetting{
 	{"cert", tlsSpec{Roots: []int{1}, Certs: []int{3}}},
 	{"wrongcert", tlsSpec{Roots: []int{1}, Certs: []int{2}}},
 	{"skip-cert", tlsSpec{Skip: true, Certs: []int{2, 3}}},
+	{"skip-sname", tlsSpec{Skip: true, SName: "other.test"}},
+	{"wrongroot-sname", tlsSpec{Roots: []int{2}, SName: "c12.test"}},
 }
 
 // ops that bring a client from setting `from` (nil = untouched) to setting `to`
@@ -186,9 +188,12 @@ func matrix(specs []srvSpec) []cell {
 									tlsOps(setter, ts.T, &other.T), reqs(2))
 							case "fork":
 								// a differently configured clone is used and dropped; the original must not notice
-								acts := []*op{nil, {K: "settls", TLS: &other.T}, {K: "skip", B: !ts.T.Skip}, {K: "root", N: 2 - si%2},
+								acts := []*op{nil, {K: "settls", TLS: &other.T}, {K: "skip", B: !ts.T.Skip}, {K: "root", N: 1},
 									{K: "sname", S: []string{"other.test", "c12.test"}[ti%2]}, {K: "force", N: (force + 1 + ti) % 4}}
 								a := acts[(si+force+ti)%len(acts)]
+								if len(ts.T.Roots) > 0 && ts.T.Roots[0] == 2 {
+									a = acts[3] // pool without the issuing CA: the clone adds it - a pool shared with the original would show
+								}
 								if a != nil && a.K == "force" && a.N == 3 && !sp.H3 {
 									a = acts[1]
 								}
@@ -201,7 +206,17 @@ func matrix(specs []srvSpec) []cell {
 							case "fresh":
 								ops = cat(tlsOps(setter, ts.T, nil), po, reqs(3))
 							case "clone":
-								ops = cat(tlsOps(setter, ts.T, nil), po, []op{{K: "clone"}}, reqs(3))
+								cl := op{K: "clone"}
+								if (si+ti+force)%2 == 0 {
+									// the original is changed after cloning: the clone must not notice
+									origActs := []*op{{K: "settls", TLS: &other.T}, {K: "skip", B: !ts.T.Skip}, {K: "root", N: 1},
+										{K: "sname", S: "other.test"}, {K: "force", N: (force + 1) % 3}}
+									cl.F = origActs[(si+force+ti)%len(origActs)]
+									if len(ts.T.Roots) > 0 && ts.T.Roots[0] == 2 {
+										cl.F = origActs[2] // same, in the other direction
+									}
+								}
+								ops = cat(tlsOps(setter, ts.T, nil), po, []op{cl}, reqs(3))
 							case "clone-then-config":
 								ops = cat(po, reqs(1), []op{{K: "clone"}}, tlsOps(setter, ts.T, nil), reqs(2))
 							case "changed":
@@ -294,7 +309,11 @@ func randomWalk(rng *hk.Rand, specs []srvSpec) cell {
 			ops = append(ops, op{K: "h3"})
 		case k < 13:
 			if rng.Chance(50) {
-				ops = append(ops, op{K: "clone"})
+				cl := op{K: "clone"}
+				if rng.Chance(50) {
+					cl.F = hk.Pick(rng, []*op{{K: "skip", B: rng.Bool()}, {K: "root", N: 1}, {K: "sname", S: "other.test"}, {K: "force", N: rng.Intn(3)}})
+				}
+				ops = append(ops, cl)
 			} else {
 				acts := []*op{nil, {K: "skip", B: rng.Bool()}, {K: "root", N: rng.Range(1, 2)}, {K: "sname", S: hk.Pick(rng, []string{"", "c12.test", "other.test"})},
 					{K: "force", N: rng.Intn(3)}, {K: "settls", TLS: &tlsSettings[rng.Intn(len(tlsSettings))].T}}
@@ -523,7 +542,9 @@ func run(r *hk.Run) {
 		}
 		sort.SliceStable(res.Viol, func(a, b int) bool { return res.Viol[a].At < res.Viol[b].At })
 		for _, v := range res.Viol {
-			kind := strings.SplitN(v.Sig, "/", 2)[0]
+			// at most 4 reports per kind of violation; the kind is everything before the cell's shape, so that
+			// the reports of a known finding cannot use up the quota of a different violation
+			kind := strings.SplitN(v.Sig, "/"+cl.Shape, 2)[0]
 			if seenSig[v.Sig] || kindCount[kind] >= 4 {
 				continue
 			}
